@@ -534,15 +534,15 @@ theorem withCtx_isCtxOf (c : Chunk α) {pre post : List α} (h1 : pre.length ≤
 
 
 /-- the bound on the post-context: it ends before the next chunk (or the end of the input) -/
-def PostBound (L : List α) (c : Chunk α) (post : List α) : List (Chunk α) → Prop
-  | [] => c.lend + post.length ≤ L.length + 1
-  | d :: _ => post.length ≤ d.lstart - c.lend
+def PostBound (L : List α) (lend : Nat) (post : List α) : List (Chunk α) → Prop
+  | [] => lend + post.length ≤ L.length + 1
+  | d :: _ => post.length ≤ d.lstart - lend
 
 /-- the result of the bounded `AddContext` loop, chunk by chunk; `p` is `prevEnd` -/
 def CtxRel (L R : List α) (n : Nat) : Nat → List (Chunk α) → List (Chunk α) → Prop
   | _, [], [] => True
   | p, c :: cs, c' :: cs' => (∃ pre post, c' = withCtx c pre post ∧ CtxFacts L R c pre post ∧
-      pre.length ≤ n ∧ post.length ≤ n ∧ pre.length ≤ c.lstart - p ∧ PostBound L c post cs) ∧
+      pre.length ≤ n ∧ post.length ≤ n ∧ pre.length ≤ c.lstart - p ∧ PostBound L c.lend post cs) ∧
       CtxRel L R n c.lend cs cs'
   | _, _, _ => False
 
@@ -649,6 +649,387 @@ theorem ctxRel_gap {L R : List α} {n : Nat} : ∀ (cs cs' : List (Chunk α)) (p
     | succ i =>
       simp only [List.getElem?_cons_succ] at h1 h2 h3 h4
       exact ctxRel_gap (b :: cs) (b' :: cs') a.lend hasc.2.2 h.2 i c d c' d' h1 h2 h3 h4
+
+
+
+/-! ## UnifyChunks -/
+
+/-- a chunk `core` followed by post-context `post` -/
+def mkLast (core : Chunk α) (post : List α) : Chunk α :=
+  ⟨core.edits ++ emitOpt post, core.lstart, core.lend + post.length, core.rstart,
+    core.rend + post.length⟩
+
+theorem emitOpt_nil : emitOpt ([] : List α) = [] := rfl
+theorem emitOpt_of_ne {p : List α} (h : p ≠ []) : emitOpt p = [⟨.emit, p, []⟩] := by
+  unfold emitOpt; rw [if_neg h]
+
+theorem withCtx_mkLast (c : Chunk α) (pre post : List α) :
+    withCtx c pre post = mkLast (withCtx c pre []) post := by
+  rw [withCtx_eq, withCtx_eq]; simp [mkLast, emitOpt_nil]
+
+theorem mergeInto_nolap {last c l2 c2 : Chunk α} (h : last.lend - c.lstart = 0)
+    (hf : fuseBoundary last c = .ok (l2, c2)) :
+    mergeInto last c = .ok ⟨l2.edits ++ c2.edits, l2.lstart, c2.lend, l2.rstart, c2.rend⟩ := by
+  unfold mergeInto
+  simp [h, hf, bind, Except.bind, pure, Except.pure]
+
+theorem mergeInto_lap {last c l1 c1 l2 c2 : Chunk α} (h : last.lend - c.lstart > 0)
+    (ht : trimOverlap last c (last.lend - c.lstart) = .ok (l1, c1)) (hm : ¬ c1.lstart < l1.lend)
+    (hf : fuseBoundary l1 c1 = .ok (l2, c2)) :
+    mergeInto last c = .ok ⟨l2.edits ++ c2.edits, l2.lstart, c2.lend, l2.rstart, c2.rend⟩ := by
+  unfold mergeInto
+  simp [h, ht, hm, hf, bind, Except.bind, pure, Except.pure]
+
+theorem trim_mkLast (core c : Chunk α) {post : List α} {lap : Nat} (hp : post ≠ [])
+    (hlap : lap ≤ post.length) :
+    trimOverlap (mkLast core post) c lap = .ok (mkLast core (post.take (post.length - lap)), c) := by
+  unfold trimOverlap
+  have h1 : (mkLast core post).edits.getLast? = some ⟨.emit, post, []⟩ := by
+    show (core.edits ++ emitOpt post).getLast? = _
+    rw [emitOpt_of_ne hp, List.getLast?_concat]
+  rw [h1]
+  simp only [if_true]
+  congr 2
+  show Chunk.mk _ _ _ _ _ = Chunk.mk _ _ _ _ _
+  have hlen : (post.take (post.length - lap)).length = post.length - lap := by
+    rw [List.length_take]; omega
+  congr 1
+  · show (if lap ≥ post.length then (core.edits ++ emitOpt post).dropLast
+        else (core.edits ++ emitOpt post).dropLast ++ [⟨.emit, post.take (post.length - lap), []⟩]) = _
+    rw [emitOpt_of_ne hp, List.dropLast_concat]
+    by_cases h : lap ≥ post.length
+    · rw [if_pos h]
+      have : post.length - lap = 0 := by omega
+      rw [this, List.take_zero, emitOpt_nil, List.append_nil]
+    · rw [if_neg h, emitOpt_of_ne]
+      intro h0
+      rw [h0] at hlen; simp at hlen; omega
+  · show core.lend + post.length - lap = core.lend + _
+    rw [hlen]; omega
+  · show core.rend + post.length - lap = core.rend + _
+    rw [hlen]; omega
+
+
+theorem fuse_mkLast (core c : Chunk α) (post1 pre2 post2 : List α) {es fs : List (Edit α)}
+    {e f : Edit α} (hcore : core.edits = es ++ [e]) (he : e.op ≠ .emit)
+    (hc : c.edits = f :: fs) (hf : f.op ≠ .emit) (hne : post1 ≠ [] ∨ pre2 ≠ []) :
+    ∃ l2 c2, fuseBoundary (mkLast core post1) (withCtx c pre2 post2) = .ok (l2, c2) ∧
+      l2.edits ++ c2.edits =
+        core.edits ++ [⟨.emit, post1 ++ pre2, []⟩] ++ c.edits ++ emitOpt post2 ∧
+      l2.lstart = core.lstart ∧ l2.rstart = core.rstart ∧
+      c2.lend = c.lend + post2.length ∧ c2.rend = c.rend + post2.length := by
+  rw [withCtx_eq]
+  unfold fuseBoundary
+  by_cases h1 : post1 = []
+  · subst h1
+    have hp2 : pre2 ≠ [] := by rcases hne with h | h; exact absurd rfl h; exact h
+    have g1 : (mkLast core []).edits.getLast? = some e := by
+      show (core.edits ++ emitOpt []).getLast? = _
+      rw [emitOpt_nil, List.append_nil, hcore, List.getLast?_concat]
+    rw [g1]
+    simp only [if_neg he]
+    refine ⟨_, _, rfl, ?_, rfl, rfl, rfl, rfl⟩
+    show core.edits ++ emitOpt [] ++ (emitOpt pre2 ++ c.edits ++ emitOpt post2) = _
+    rw [emitOpt_nil, emitOpt_of_ne hp2]
+    simp
+  · have g1 : (mkLast core post1).edits.getLast? = some ⟨.emit, post1, []⟩ := by
+      show (core.edits ++ emitOpt post1).getLast? = _
+      rw [emitOpt_of_ne h1, List.getLast?_concat]
+    rw [g1]
+    simp only [if_true]
+    by_cases h2 : pre2 = []
+    · subst h2
+      have g2 : (Chunk.mk (emitOpt [] ++ c.edits ++ emitOpt post2) (c.lstart - ([] : List α).length)
+          (c.lend + post2.length) (c.rstart - ([] : List α).length) (c.rend + post2.length)).edits.head?
+          = some f := by
+        show (emitOpt [] ++ c.edits ++ emitOpt post2).head? = _
+        rw [emitOpt_nil, hc]; rfl
+      rw [g2]
+      simp only [if_neg hf]
+      refine ⟨_, _, rfl, ?_, rfl, rfl, rfl, rfl⟩
+      show core.edits ++ emitOpt post1 ++ (emitOpt [] ++ c.edits ++ emitOpt post2) = _
+      rw [emitOpt_nil, emitOpt_of_ne h1]
+      simp
+    · have g2 : (Chunk.mk (emitOpt pre2 ++ c.edits ++ emitOpt post2) (c.lstart - pre2.length)
+          (c.lend + post2.length) (c.rstart - pre2.length) (c.rend + post2.length)).edits.head?
+          = some ⟨.emit, pre2, []⟩ := by
+        show (emitOpt pre2 ++ c.edits ++ emitOpt post2).head? = _
+        rw [emitOpt_of_ne h2]; rfl
+      rw [g2]
+      simp only [if_true]
+      refine ⟨_, _, rfl, ?_, rfl, rfl, rfl, rfl⟩
+      show (core.edits ++ emitOpt post1).dropLast ++ [⟨.emit, post1 ++ pre2, []⟩] ++
+        (emitOpt pre2 ++ c.edits ++ emitOpt post2).tail = _
+      rw [emitOpt_of_ne h1, emitOpt_of_ne h2, List.dropLast_concat]
+      simp
+
+
+theorem mid_eq {l post pre : List α} {a b k : Nat} (ha : 1 ≤ a)
+    (hpost : span l a (a + post.length) = post) (hpre : span l (b - pre.length) b = pre)
+    (hk : k ≤ post.length) (hab : a + k = b - pre.length) :
+    post.take k ++ pre = span l a b := by
+  have h1 : post.take k = span l a (a + k) := by
+    conv => lhs; rw [← hpost]
+    unfold span
+    rw [List.take_take]
+    congr 1; omega
+  rw [h1, ← hpre, hab]
+  exact span_append l (by omega) (by omega) (by omega)
+
+/-- the merged chunk so far: a correct chunk `core` ending in a non-Emit edit, followed by
+post-context `post` -/
+structure LastInv (L R : List α) (core : Chunk α) (post : List α) : Prop where
+  ok : ChunkOK core L R
+  lastne : ∃ es e, core.edits = es ++ [e] ∧ e.op ≠ .emit
+  postl : core.lend + post.length ≤ L.length + 1
+  postr : core.rend + post.length ≤ R.length + 1
+  postL : span L core.lend (core.lend + post.length) = post
+  postR : span R core.rend (core.rend + post.length) = post
+
+theorem merge_spec {L R : List α} {core c : Chunk α} {post pre2 post2 : List α}
+    (hl : LastInv L R core post) (hc : ChunkOK c L R) (hf : CtxFacts L R c pre2 post2)
+    (hcne : c.edits ≠ []) (hcno : ∀ e ∈ c.edits, e.op ≠ .emit)
+    (hgap : GapEq L R core.lend core.rend c.lstart c.rstart) (hstrict : core.lend < c.lstart)
+    (hpre : pre2.length ≤ c.lstart - core.lend) (hpost : post.length ≤ c.lstart - core.lend)
+    (hov : c.lstart - pre2.length ≤ core.lend + post.length) :
+    ∃ core', mergeInto (mkLast core post) (withCtx c pre2 post2) = .ok (mkLast core' post2) ∧
+      LastInv L R core' post2 ∧ core'.lstart = core.lstart ∧ core'.rstart = core.rstart ∧
+      core'.lend = c.lend ∧ core'.rend = c.rend := by
+  obtain ⟨g1, g2, g3, g4⟩ := hgap
+  have hok := hl.ok
+  have o1 := hok.l1; have o2 := hok.l2; have o3 := hok.l3
+  have o4 := hok.r1; have o5 := hok.r2; have o6 := hok.r3
+  have q1 := hc.l1; have q2 := hc.l2; have q3 := hc.l3
+  have q4 := hc.r1; have q5 := hc.r2; have q6 := hc.r3
+  have p1 := hf.prel; have p2 := hf.prer
+  obtain ⟨es, e, hes, he⟩ := hl.lastne
+  obtain ⟨f, fs, hfs⟩ := List.exists_cons_of_ne_nil hcne
+  have hfop : f.op ≠ .emit := hcno f (by rw [hfs]; exact List.mem_cons_self ..)
+  -- the overlap and what is left of `post`
+  generalize hlap : core.lend + post.length - (c.lstart - pre2.length) = lap
+  generalize hpost1 : post.take (post.length - lap) = post1
+  have hlen1 : post1.length = post.length - lap := by rw [← hpost1, List.length_take]; omega
+  have hne : post1 ≠ [] ∨ pre2 ≠ [] := by
+    by_cases h1 : post1 = []
+    · right; intro h2; rw [h1] at hlen1; rw [h2] at hov hlap hpre; simp at hlen1 hov hlap hpre; omega
+    · exact Or.inl h1
+  obtain ⟨l2, c2, hfuse, r1, r2, r3, r4, r5⟩ :=
+    fuse_mkLast core c post1 pre2 post2 hes he hfs hfop hne
+  have hmidL : post1 ++ pre2 = span L core.lend c.lstart := by
+    rw [← hpost1]
+    exact mid_eq (by omega) hl.postL hf.preL (by omega) (by omega)
+  have hmidR : post1 ++ pre2 = span R core.rend c.rstart := by
+    rw [← hpost1]
+    exact mid_eq (by omega) hl.postR hf.preR (by omega) (by omega)
+  refine ⟨⟨core.edits ++ [⟨.emit, post1 ++ pre2, []⟩] ++ c.edits, core.lstart, c.lend, core.rstart,
+    c.rend⟩, ?_, ⟨⟨o1, by show core.lstart ≤ c.lend; omega, q3, o4, by show core.rstart ≤ c.rend; omega,
+      q6, ?_, ?_⟩, ?_, hf.postl, hf.postr, hf.postL, hf.postR⟩, rfl, rfl, rfl, rfl⟩
+  · -- the computation
+    have hres : (⟨l2.edits ++ c2.edits, l2.lstart, c2.lend, l2.rstart, c2.rend⟩ : Chunk α) =
+        mkLast ⟨core.edits ++ [⟨.emit, post1 ++ pre2, []⟩] ++ c.edits, core.lstart, c.lend,
+          core.rstart, c.rend⟩ post2 := by
+      rw [r1, r2, r3, r4, r5]; rfl
+    rw [← hres]
+    have hlapeq : (mkLast core post).lend - (withCtx c pre2 post2).lstart = lap := by
+      rw [withCtx_eq]; exact hlap
+    by_cases h0 : lap = 0
+    · have : post1 = post := by
+        rw [← hpost1, h0, Nat.sub_zero, List.take_length]
+      rw [this] at hfuse
+      exact mergeInto_nolap (by rw [hlapeq, h0]) hfuse
+    · have hpne : post ≠ [] := by
+        intro h; rw [h] at hlap; simp at hlap; omega
+      refine mergeInto_lap (l1 := mkLast core post1) (c1 := withCtx c pre2 post2)
+        (by rw [hlapeq]; omega) ?_ ?_ hfuse
+      · rw [hlapeq, trim_mkLast core _ hpne (by omega), hpost1]
+      · rw [withCtx_eq]
+        show ¬ c.lstart - pre2.length < core.lend + post1.length
+        omega
+  · show consumed (core.edits ++ [⟨.emit, post1 ++ pre2, []⟩] ++ c.edits) = span L core.lstart c.lend
+    rw [consumed_append, consumed_append, consumed_single, hok.cons, hc.cons]
+    show span L core.lstart core.lend ++ (post1 ++ pre2) ++ span L c.lstart c.lend = _
+    rw [hmidL, span_append L o1 o2 (by omega), span_append L o1 (by omega) q2]
+  · show produced (core.edits ++ [⟨.emit, post1 ++ pre2, []⟩] ++ c.edits) = span R core.rstart c.rend
+    rw [produced_append, produced_append, produced_single, hok.prod, hc.prod]
+    show span R core.rstart core.rend ++ (post1 ++ pre2) ++ span R c.rstart c.rend = _
+    rw [hmidR, span_append R o4 o5 (by omega), span_append R o4 (by omega) q5]
+  · refine ⟨core.edits ++ [⟨.emit, post1 ++ pre2, []⟩] ++ c.edits.dropLast, c.edits.getLast hcne, ?_,
+      hcno _ (List.getLast_mem hcne)⟩
+    show core.edits ++ [⟨.emit, post1 ++ pre2, []⟩] ++ c.edits = _
+    rw [List.append_assoc _ c.edits.dropLast, List.dropLast_concat_getLast]
+
+
+theorem span_sub (l : List α) {a c x y : Nat} (ha : 1 ≤ a) (h : a + x ≤ c - y) :
+    span l (a + x) (c - y) = ((span l a c).drop x).take (c - y - (a + x)) := by
+  unfold span
+  rw [List.drop_take, List.take_take, List.drop_drop]
+  have e1 : min (c - y - (a + x)) (c - a - x) = c - y - (a + x) := by omega
+  have e2 : a - 1 + x = a + x - 1 := by omega
+  rw [e1, e2]
+
+theorem gapEq_sub {L R : List α} {a b c d x y : Nat} (h : GapEq L R a b c d) (ha : 1 ≤ a)
+    (hb : 1 ≤ b) (hxy : x + y ≤ c - a) : GapEq L R (a + x) (b + x) (c - y) (d - y) := by
+  obtain ⟨h1, h2, h3, h4⟩ := h
+  refine ⟨by omega, by omega, by omega, ?_⟩
+  rw [span_sub L ha (by omega), span_sub R hb (by omega), h4]
+  congr 1; omega
+
+theorem mkLast_ok {L R : List α} {core : Chunk α} {post : List α} (h : LastInv L R core post) :
+    ChunkOK (mkLast core post) L R := by
+  have hok := h.ok
+  have o1 := hok.l1; have o2 := hok.l2; have o4 := hok.r1; have o5 := hok.r2
+  refine ⟨o1, by show core.lstart ≤ core.lend + post.length; omega, h.postl, o4,
+    by show core.rstart ≤ core.rend + post.length; omega, h.postr, ?_, ?_⟩
+  · show consumed (core.edits ++ emitOpt post) = span L core.lstart (core.lend + post.length)
+    rw [consumed_append, consumed_emitOpt, hok.cons, ← span_append L o1 o2 (Nat.le_add_right _ _),
+      h.postL]
+  · show produced (core.edits ++ emitOpt post) = span R core.rstart (core.rend + post.length)
+    rw [produced_append, produced_emitOpt, hok.prod, ← span_append R o4 o5 (Nat.le_add_right _ _),
+      h.postR]
+
+theorem nonAdjacent_cons {c : Chunk α} {cs : List (Chunk α)} (h : NonAdjacent (c :: cs)) :
+    (∀ d ∈ cs.head?, c.lend < d.lstart) ∧ NonAdjacent cs := by
+  cases cs with
+  | nil => exact ⟨(by intro d hd; cases hd), trivial⟩
+  | cons d cs =>
+    refine ⟨?_, h.2⟩
+    intro d' hd'
+    simp only [List.head?_cons, Option.mem_def, Option.some.injEq] at hd'
+    subst hd'; exact h.1
+
+/-- a chunk with pre-context only, as the `core` of a `LastInv` -/
+theorem lastInv_of_ctx {L R : List α} {c : Chunk α} {pre post : List α} (hc : ChunkOK c L R)
+    (hf : CtxFacts L R c pre post) (hcne : c.edits ≠ []) (hcno : ∀ e ∈ c.edits, e.op ≠ .emit) :
+    LastInv L R ⟨emitOpt pre ++ c.edits, c.lstart - pre.length, c.lend, c.rstart - pre.length, c.rend⟩
+      post ∧
+    withCtx c pre post =
+      mkLast ⟨emitOpt pre ++ c.edits, c.lstart - pre.length, c.lend, c.rstart - pre.length, c.rend⟩ post := by
+  refine ⟨⟨?_, ?_, hf.postl, hf.postr, hf.postL, hf.postR⟩, ?_⟩
+  · have h0 : CtxFacts L R c pre [] :=
+      ⟨hf.prel, hf.prer, hf.preL, hf.preR, hc.l3, hc.r3, span_self .., span_self ..⟩
+    have := withCtx_ok hc h0
+    rw [withCtx_eq] at this
+    simpa [emitOpt_nil] using this
+  · refine ⟨emitOpt pre ++ c.edits.dropLast, c.edits.getLast hcne, ?_, hcno _ (List.getLast_mem hcne)⟩
+    show emitOpt pre ++ c.edits = _
+    rw [List.append_assoc, List.dropLast_concat_getLast]
+  · rw [withCtx_eq]; rfl
+
+theorem unifyLoop_spec {L R : List α} {n : Nat} : ∀ (rest rest' init : List (Chunk α))
+    (core : Chunk α) (post : List α),
+    LastInv L R core post → AllOK rest L R →
+    (∀ c ∈ rest, c.edits ≠ [] ∧ ∀ e ∈ c.edits, e.op ≠ .emit) →
+    (∀ d ∈ rest.head?, core.lend < d.lstart) → NonAdjacent rest →
+    Aligned L R core.lend core.rend rest → CtxRel L R n core.lend rest rest' →
+    PostBound L core.lend post rest →
+    ∃ h t, unifyLoop init (mkLast core post) rest' = .ok (init ++ h :: t) ∧
+      h.lstart = core.lstart ∧ h.rstart = core.rstart ∧ AllOK (h :: t) L R ∧
+      Ascending (h :: t) ∧ NonAdjacent (h :: t) ∧ Aligned L R h.lend h.rend t
+  | [], [], init, core, post, hl, _, _, _, _, hal, _, _ => by
+    refine ⟨mkLast core post, [], rfl, rfl, rfl, ?_, trivial, trivial, ?_⟩
+    · intro c hc
+      have hc : c = mkLast core post := by simpa using hc
+      rw [hc]; exact mkLast_ok hl
+    · show L.drop (core.lend + post.length - 1) = R.drop (core.rend + post.length - 1)
+      have hal : L.drop (core.lend - 1) = R.drop (core.rend - 1) := hal
+      have o1 := hl.ok.l1; have o2 := hl.ok.l2; have o4 := hl.ok.r1; have o5 := hl.ok.r2
+      have e1 : core.lend + post.length - 1 = core.lend - 1 + post.length := by omega
+      have e2 : core.rend + post.length - 1 = core.rend - 1 + post.length := by omega
+      rw [e1, e2, ← List.drop_drop, ← List.drop_drop, hal]
+  | [], _ :: _, _, _, _, _, _, _, _, _, _, h, _ => h.elim
+  | _ :: _, [], _, _, _, _, _, _, _, _, _, h, _ => h.elim
+  | c :: cs, c' :: cs', init, core, post, hl, hok, hne, hhead, hna, hal, hrel, hpb => by
+    obtain ⟨⟨pre2, post2, rfl, hf, _, _, hpre, hpb2⟩, hrel2⟩ := hrel
+    obtain ⟨hgap, hal2⟩ := hal
+    have hc := hok c (List.mem_cons_self ..)
+    have hok2 : AllOK cs L R := fun d hd => hok d (List.mem_cons_of_mem _ hd)
+    have hne2 : ∀ c ∈ cs, c.edits ≠ [] ∧ ∀ e ∈ c.edits, e.op ≠ .emit :=
+      fun d hd => hne d (List.mem_cons_of_mem _ hd)
+    obtain ⟨hcne, hcno⟩ := hne c (List.mem_cons_self ..)
+    obtain ⟨hhead2, hna2⟩ := nonAdjacent_cons hna
+    have hstrict : core.lend < c.lstart := hhead c rfl
+    have hpost : post.length ≤ c.lstart - core.lend := hpb
+    have o1 := hl.ok.l1; have o2 := hl.ok.l2; have o4 := hl.ok.r1; have o5 := hl.ok.r2
+    have q1 := hc.l1; have q2 := hc.l2; have q4 := hc.r1; have q5 := hc.r2
+    have p1 := hf.prel; have p2 := hf.prer
+    obtain ⟨g1, g2, g3, g4⟩ := hgap
+    rw [unifyLoop]
+    by_cases hgt : (withCtx c pre2 post2).lstart > (mkLast core post).lend
+    · rw [if_pos hgt]
+      obtain ⟨hl2, heq⟩ := lastInv_of_ctx hc hf hcne hcno
+      rw [heq]
+      rw [withCtx_eq] at hgt
+      have hgt : c.lstart - pre2.length > core.lend + post.length := hgt
+      obtain ⟨h2, t2, hrun, a1, a2, a3, a4, a5, a6⟩ :=
+        unifyLoop_spec cs cs' (init ++ [mkLast core post]) _ post2 hl2 hok2 hne2 hhead2 hna2 hal2
+          hrel2 hpb2
+      have a1 : h2.lstart = c.lstart - pre2.length := a1
+      have a2 : h2.rstart = c.rstart - pre2.length := a2
+      refine ⟨mkLast core post, h2 :: t2, ?_, rfl, rfl, ?_, ?_, ?_, ?_, a6⟩
+      · rw [hrun]; simp
+      · intro d hd
+        rcases List.mem_cons.1 hd with rfl | hd
+        · exact mkLast_ok hl
+        · exact a3 d hd
+      · refine ⟨?_, ?_, a4⟩
+        · show core.lend + post.length ≤ h2.lstart; omega
+        · show core.rend + post.length ≤ h2.rstart; omega
+      · refine ⟨?_, a5⟩
+        show core.lend + post.length < h2.lstart; omega
+      · show GapEq L R (core.lend + post.length) (core.rend + post.length) h2.lstart h2.rstart
+        rw [a1, a2]
+        exact gapEq_sub ⟨g1, g2, g3, g4⟩ (by omega) (by omega) (by omega)
+    · rw [if_neg hgt]
+      rw [withCtx_eq] at hgt
+      have hgt : ¬ c.lstart - pre2.length > core.lend + post.length := hgt
+      obtain ⟨core', hm, hl', b1, b2, b3, b4⟩ :=
+        merge_spec hl hc hf hcne hcno ⟨g1, g2, g3, g4⟩ hstrict hpre hpost (by omega)
+      rw [hm]
+      simp only []
+      rw [← b3] at hhead2 hrel2 hpb2 hal2
+      rw [← b4] at hal2
+      obtain ⟨h2, t2, hrun, a1, a2, a3⟩ :=
+        unifyLoop_spec cs cs' init core' post2 hl' hok2 hne2 hhead2 hna2 hal2 hrel2 hpb2
+      exact ⟨h2, t2, hrun, by rw [a1, b1], by rw [a2, b2], a3⟩
+
+
+theorem unify_rel {L R : List α} {n : Nat} {cs cs' : List (Chunk α)} (hok : AllOK cs L R)
+    (hna : NonAdjacent cs) (hal : Aligned L R 1 1 cs)
+    (hne : ∀ c ∈ cs, c.edits ≠ [] ∧ ∀ e ∈ c.edits, e.op ≠ .emit)
+    (hrel : CtxRel L R n 1 cs cs') :
+    ∃ u, unifyChunks cs' = .ok u ∧ AllOK u L R ∧ Ascending u ∧ NonAdjacent u ∧
+      Aligned L R 1 1 u := by
+  match cs, cs', hrel with
+  | [], [], _ => exact ⟨[], rfl, (by intro c hc; cases hc), trivial, trivial, hal⟩
+  | c :: rest, c' :: rest', hrel =>
+    obtain ⟨⟨pre, post, rfl, hf, _, _, hpre, hpb⟩, hrel2⟩ := hrel
+    obtain ⟨hgap, hal2⟩ := hal
+    have hc := hok c (List.mem_cons_self ..)
+    obtain ⟨hcne, hcno⟩ := hne c (List.mem_cons_self ..)
+    obtain ⟨hhead, hna2⟩ := nonAdjacent_cons hna
+    obtain ⟨hl, heq⟩ := lastInv_of_ctx hc hf hcne hcno
+    obtain ⟨h, t, hrun, a1, a2, a3, a4, a5, a6⟩ :=
+      unifyLoop_spec rest rest' [] _ post hl (fun d hd => hok d (List.mem_cons_of_mem _ hd))
+        (fun d hd => hne d (List.mem_cons_of_mem _ hd)) hhead hna2 hal2 hrel2 hpb
+    have a1 : h.lstart = c.lstart - pre.length := a1
+    have a2 : h.rstart = c.rstart - pre.length := a2
+    refine ⟨h :: t, ?_, a3, a4, a5, ?_, a6⟩
+    · rw [unifyChunks, heq, hrun]; rfl
+    · show GapEq L R 1 1 h.lstart h.rstart
+      rw [a1, a2]
+      exact gapEq_sub (x := 0) hgap (Nat.le_refl _) (Nat.le_refl _) (by omega)
+
+theorem unifyLoop_id : ∀ (rest init : List (Chunk α)) (last : Chunk α),
+    NonAdjacent (last :: rest) → unifyLoop init last rest = .ok (init ++ last :: rest)
+  | [], init, last, _ => rfl
+  | c :: cs, init, last, h => by
+    rw [unifyLoop, if_pos h.1, unifyLoop_id cs (init ++ [last]) c h.2]
+    simp
+
+theorem unifyChunks_id (cs : List (Chunk α)) (h : NonAdjacent cs) : unifyChunks cs = .ok cs := by
+  cases cs with
+  | nil => rfl
+  | cons c cs => rw [unifyChunks, unifyLoop_id cs [] c h]; rfl
 
 
 end MdsVerif.Proofs.Mdiff
